@@ -115,6 +115,10 @@ def runRel (c : Case) : Verdict :=
   | "eq" =>
     let ok := a == b && !(a.startsWith "!")
     { agree := ok, spec := if ok then "ok" else if a == b then "fail:both-runs-failed" else "fail:the-two-runs-differ", model := a }
+  | "allsame" =>
+    let ok := c.nat "ndistinct" == 1 && !(a.startsWith "!")
+    { agree := ok, spec := if ok then "ok" else if a.startsWith "!" then "fail:a-run-failed"
+        else "fail:" ++ c.get "ndistinct" ++ "-different-outputs-over-" ++ c.get "runs" ++ "-runs", model := a }
   | "eq4" =>
     let all := [a, b, c.get "goc", c.get "god"]
     let ok := all.all (· == a) && !(a.startsWith "!")
